@@ -172,7 +172,7 @@ def calls_for(rng, pd, o, budget):
 
 
 def generate(rng, tier, mult):
-    n_pipes = (40 if tier == "quick" else 2500) * mult
+    n_pipes = (40 if tier == "quick" else 400) * mult
     cases = []
     for _ in range(n_pipes):
         base = pipegen.gen_pipeline(rng)
@@ -207,7 +207,7 @@ def generate(rng, tier, mult):
                 bad = rng.choice(pipegen.root_names(base) + ["nope"])
                 cases.append({"kind": "run", "p": pd, "o": bad, "kw": [], "full": False, "entry": 1, "tag": "badout"})
                 cases.append({"kind": "args", "p": pd, "o": bad})
-    for _ in range((60 if tier == "quick" else 3000) * mult):
+    for _ in range((60 if tier == "quick" else 2000) * mult):
         cases.append({"kind": "graph", "g": _gen_graph(rng)})
     return cases
 
